@@ -152,6 +152,21 @@ def aggregate(B, npieces, have_A):
     return {'W': W, 'U': U}
 
 
+def reverse_bm_UA(B):
+    """ReverseBrownian(base)(ta, tb, return_U=True, return_A=True) in ONE call (m = 2 channels)."""
+    ta, tb = B.t('ta'), B.t('tb')
+    rec = {}
+
+    class Base:
+        def __call__(self, a, b=None, return_U=False, return_A=False):
+            rec['a'], rec['b'], rec['flags'] = a, b, (return_U, return_A)
+            return B.x('Wb', (1, 2)), B.x('Ub', (1, 2)), B.x('Ab', (1, 2, 2))
+
+    W, U, A = derived.ReverseBrownian(Base())(ta, tb, return_U=True, return_A=True)
+    assert rec['flags'] == (True, True)
+    return {'qa': rec['a'], 'qb': rec['b'], 'W': W, 'U': U, 'A': A}
+
+
 def levy(B, mode, batch=1):
     """_davie_foster_approximation for `batch` rows with m = 2 channels."""
     W, H = B.x('W', (batch, 2)), B.x('H', (batch, 2))
